@@ -617,8 +617,14 @@ def gen_DedupFacts():
             raise TranslateError("process_chunks: bookkeeping is neither before the decision nor first in the accept branch")
         bbd = "false"
     out.append("Definition dedup_booked_before_decision : bool := %s.\n" % bbd)
-    for p in ["dedup_metrics.defrag_prevented_dedup_chunks += n_deduped; dedup_metrics.defrag_prevented_dedup_bytes += fse.unpacked_segment_bytes as usize;",
-              "dedup_metrics.total_chunks += 1; dedup_metrics.total_bytes += n_bytes; dedup_metrics.new_bytes += n_bytes; dedup_metrics.new_chunks += 1;",
+    # what a rejected dedup answer adds to the "withheld by fragmentation prevention" counters: the whole run it covered,
+    # or the one chunk that is stored as new data because of the decision
+    whole = "dedup_metrics.defrag_prevented_dedup_chunks += n_deduped; dedup_metrics.defrag_prevented_dedup_bytes += fse.unpacked_segment_bytes as usize;"
+    one = "dedup_metrics.defrag_prevented_dedup_chunks += 1; dedup_metrics.defrag_prevented_dedup_bytes += chunks[cur_idx].data.len();"
+    if pc.count(whole) + pc.count(one) != 1:
+        raise TranslateError("process_chunks: booking of a rejected dedup answer not found exactly once")
+    out.append("Definition defrag_counts_whole_run : bool := %s.\n" % ("true" if whole in pc else "false"))
+    for p in ["dedup_metrics.total_chunks += 1; dedup_metrics.total_bytes += n_bytes; dedup_metrics.new_bytes += n_bytes; dedup_metrics.new_chunks += 1;",
               "if self.new_data_size + n_bytes > *MAX_XORB_BYTES || self.new_data.len() + 1 > *MAX_XORB_CHUNKS {",
               "&& self.file_info.last().unwrap().cas_hash == MerkleHash::default() && self.file_info.last().unwrap().chunk_index_end as usize == self.new_data.len()",
               "self.new_data_hash_lookup.insert(chunk.hash, self.new_data.len()); self.new_data.push(chunk);"]:
